@@ -64,6 +64,21 @@ func TestVerifC13(t *testing.T) {
 	defer w.Flush()
 
 	for _, cs := range cases {
+		func() {
+			defer func() {
+				if r := recover(); r != nil {
+					b, _ := json.Marshal(map[string]any{"id": cs.ID, "panic": fmt.Sprint(r)})
+					w.Write(b)
+					w.WriteByte('\n')
+				}
+			}()
+			verifC13Run(t, cs, w)
+		}()
+	}
+}
+
+func verifC13Run(t *testing.T, cs verifC13Case, w *bufio.Writer) {
+	{
 		var pubs [][]string
 		h := NewEventHandler(func(targets []string) {
 			l := append([]string{}, targets...)
